@@ -534,6 +534,22 @@ fn handle(line: &str) -> R {
             auth.localize(&k, &e, &mut out);
             Ok(format!("OK {}", hex(&out)))
         }
+        "reqid" => {
+            // reqid <state> <n>: place the id generator (verification hook of /repo), draw n ids; the last one is then
+            // compared through RequestId::check with itself and with values that differ above bit 30
+            let mut r = crate::reqid::RequestId::default();
+            /*REQID_HOOK*/
+            let n: usize = a[2].parse().unwrap();
+            let mut ids: Vec<i64> = vec![];
+            for _ in 0..n {
+                ids.push(r.get_next());
+            }
+            let last = *ids.last().unwrap();
+            let ck = |v: i64| if r.check(v) { "1" } else { "0" };
+            Ok(format!("OK ids={} same={} plus31={} minus31={} plus32={} neg={}",
+                ids.iter().map(|x| x.to_string()).collect::<Vec<_>>().join(","),
+                ck(last), ck(last + (1i64 << 31)), ck(last - (1i64 << 31)), ck(last + (1i64 << 32)), ck(-last - 1)))
+        }
         "keytype" => {
             // keytype <auth alg code> <code with key-type bits> <key hex> <engine id hex>
             let mut auth = auth_key(a[1].parse().unwrap())?;
